@@ -3,6 +3,7 @@
 package codec
 
 import (
+	"bytes"
 	"crypto/sha256"
 	"encoding/hex"
 	"encoding/json"
@@ -260,6 +261,25 @@ func judgeStability(b []byte) (o stOutcome) {
 		return
 	}
 	tn := typeName(v1)
+	// the further description blocks a response carries must come out as the reference parser reads
+	// them from the same octets (a damaged but stable decode would pass the relay test below)
+	if dr, ok := v1.(*knxnet.DescriptionRes); ok {
+		if ref, err := refenc.Parse(b); err == nil {
+			var want []refenc.DIB
+			for _, d := range ref.DIBs {
+				if d.Type == refenc.DIBIPConfig || d.Type == refenc.DIBIPCurrent || d.Type == refenc.DIBKNXAddrs || d.Type == refenc.DIBMfrData {
+					want = append(want, d)
+				}
+			}
+			if len(want) == len(dr.UnknownBlocks) {
+				for i, d := range want {
+					if byte(dr.UnknownBlocks[i].Type) != d.Type || !bytes.Equal(dr.UnknownBlocks[i].Data, d.Data) {
+						return fail("decode-differs-from-reference:DescriptionBlock.UnknownBlocks", "further description block %d of an accepted DescriptionRes decodes as type %#02x data % x; the octets say type %#02x data % x", i, byte(dr.UnknownBlocks[i].Type), dr.UnknownBlocks[i].Data, d.Type, d.Data)
+					}
+				}
+			}
+		}
+	}
 	// A relay's receive buffer is reused for the next datagram before the telegram is re-encoded:
 	// the decoded value must not refer to the input octets. v0 is decoded from an untouched copy.
 	var v0 knxnet.Service
